@@ -3,6 +3,8 @@
 #include "arraymodel.h"
 #include "array_common.h"
 
+void array_files_reset();
+
 namespace {
 
 static bool same_d(double a, double b) { return (a != a && b != b) || (a == b && std::signbit(a) == std::signbit(b)) || a == b; }
@@ -622,6 +624,7 @@ static void run_op(ArrWorld &w, const Op &op)
 static void array_run(Ctx &c, const Plan &plan)
 {
     ArrWorld w(c);
+    array_files_reset();
     w.exact_convert = plan.cfg.geti("exact_convert", 0) != 0;
     for (int k = 0; k < NOBJ; ++k) {
 	bool cb = plan.cfg.geti("callback", 1) != 0;
@@ -637,7 +640,7 @@ static void array_run(Ctx &c, const Plan &plan)
 	run_op(w, op);
     }
     c.cur_op = (long)plan.ops.size();
-    c.nontrivial = c.states.size() >= 3;
+    if (plan.check.compare(0, 3, "C06") != 0) c.nontrivial = c.states.size() >= 3;
     if (!c.violated) {
 	for (int k = 0; k < NOBJ; ++k) { LibCall lc(c); vnadata_free(w.obj[k]); lc.done(); }
 	check_ledger_empty(c, "end of run (all vnadata objects freed)");
